@@ -99,6 +99,8 @@ def gen_stage(tape, name, cleanups, allow_cleanup, n, hot=1):
     end.append(tape.choice("program", GRID, "delay") if end[0].startswith("later") else 0)
     # the same completion, built as defer.succeed(x).addCallback(<returns the pending Deferred>)
     end.append(end[0].startswith("later") and tape.chance("program", 1, 3, "chained-on-fired-deferred"))
+    # the completion takes two reactor turns: the delayed call only schedules (callLater(0)) the call that fires
+    end.append(end[0].startswith("later") and end[2] > 0 and tape.chance("program", 1, 4, "completion-takes-two-turns"))
     n[0] += 1
     return {"side": side, "end": end, "marker": "MK%d." % n[0]}
 
@@ -141,6 +143,7 @@ def model(stages, cleanups, cfg, events):
     t = 0
     pending_calls = []   # due times of calls left by side effects
     inner = []           # (time, index in starts) of interrupts inside a stage
+    two_turns = []       # (start, completion time) of stages whose completion takes two reactor turns
 
     def run(name, spec):
         nonlocal t
@@ -170,6 +173,8 @@ def model(stages, cleanups, cfg, events):
             return "never"
         if kind.startswith("later"):
             m["async"] = True
+            if len(spec["end"]) > 4 and spec["end"][4]:
+                two_turns.append((t, t + d))
             t = t + d
         if kind in ("raise", "failed", "later_fail"):
             m["raised"].append(exc)
@@ -185,6 +190,12 @@ def model(stages, cleanups, cfg, events):
             cid = stack.pop()
             run(cid, cleanups[cid])
     m["t_end_chain"] = t
+    # An outside interrupt at the very instant the delayed call of a two-turn completion is due comes strictly
+    # first: the reactor is stopped in that turn, the call that fires the stage's Deferred is only due in the next
+    # one.  (Whatever else about such a run is a tie, the test was interrupted while still waiting.)
+    m["interrupt_one_turn_before_completion"] = bool(
+        ext and not inner and not any(k.startswith("stall") for _, k in events) and ext[0] < T
+        and any(s < ext[0] == e for s, e in two_turns))
     # --- deadline and interrupts
     cut = None   # (time, what)
     if t > T:
@@ -311,10 +322,16 @@ def run_one(tape, opts):
         if kind == "failed":
             return defer.fail(_exc(exc, spec["marker"]))
         dd = defer.Deferred()
+        two = len(spec["end"]) > 4 and spec["end"][4]
         if kind == "later_fire":
-            reactor.callLater(d, dd.callback, val)
+            fire = (dd.callback, val)
         elif kind == "later_fail":
-            reactor.callLater(d, dd.errback, _exc(exc, spec["marker"]))
+            fire = (dd.errback, _exc(exc, spec["marker"]))
+        if kind in ("later_fire", "later_fail"):
+            if two:
+                reactor.callLater(d, lambda: reactor.callLater(0, *fire))
+            else:
+                reactor.callLater(d, *fire)
         if chained:
             return defer.succeed(val).addCallback(lambda _: dd)
         return dd
@@ -444,6 +461,14 @@ def run_one(tape, opts):
             out.violate("interrupt-lost", "sigint-while-the-last-stage-finishes:result-not-asked-to-stop",
                         f"SIGINT arrived inside a stage whose completion ended the run; outcome {kind}; stages {stages} cfg {cfg} fired {sim.fired}")
         out.probe("sigint-while-the-last-stage-finishes")
+    if kind is not None and raised is None and m.get("interrupt_one_turn_before_completion"):
+        if kind != "error":
+            out.violate("interrupt-lost", f"interrupt-one-turn-before-completion:reported={kind}",
+                        f"the reactor was stopped from outside one turn before the stage's Deferred fired; outcome {kind}, result.stop() called: {bool(stops)}; stages {stages} cfg {cfg} events {events} fired {sim.fired} executed {xlog}")
+        if not stops:
+            out.violate("interrupt-lost", "interrupt-one-turn-before-completion:result-not-asked-to-stop",
+                        f"outcome {kind}; stages {stages} cfg {cfg} events {events} fired {sim.fired} executed {xlog}")
+        out.probe("interrupt-one-turn-before-completion")
     if follow is not None and follow != ["addSuccess"]:
         out.violate("leak-into-next-test", "followup:" + ("carried-interrupt:" if carried else "") + ",".join(follow)[:40],
                     f"a trivial passing test run right after this one on the same reactor was reported as {follow} (details {follow_details if follow != ['addSuccess'] else ''}); first test: stages {stages} cfg {cfg} events {events} outcome {kind}")
